@@ -39,3 +39,12 @@ prop("C06", level="proof", runtime=True,
                   "A1: gen_number over the reals (|round(x/p)*p - x| <= p/2)",
                   "parameters have bounds with lb <= ub, no 'parameter_type' key (real parameters)"],
      not_decided=["failures in parallel workers (C07)"])
+prop("C14", level="proof", runtime=True,
+     assumptions=["A2 objective as in C05; A1 real arithmetic for |f(x) - f(neighbour)|, sums and the difference quotient",
+                  "sum(list) is the recursive spec function seqsum with a congruence axiom",
+                  "WorstCaseEvaluator.run is verified in two sequential steps (region contracts run#1-evaluate, run#2-postprocess); "
+                  "the frame of step 2 is stated coarsely (whole arrays)",
+                  "designs of one batch are pairwise distinct objects owning their lists (ghost ownership)"],
+     not_decided=["orchestration of evaluate(): that add() establishes run()'s precondition for every batch is checked at run time "
+                  "only (bounded, multi-batch histories); GradientEvaluator.run step 1 (base evaluation) reuses Evaluator.evaluate's proof",
+                  "exactly n additional objective evaluations per design for the gradient evaluator: bounded run-time check only"])
